@@ -200,6 +200,64 @@ def gen_dynamic_params_buffer(rng, mods):
     return b.text, list(b.probes)
 
 
+POS_METHODS = [('infer', None), ('goto', None), ('goto', {'follow_imports': True}), ('help', None),
+               ('complete', None), ('get_references', None), ('get_references', {'scope': 'file'}),
+               ('rename_diff', None), ('get_context', None)]
+
+
+def gen_all_methods_buffer(rng, mods):
+    """few positions, MANY query methods per position: a query that runs in a special mode (file-scope
+    reference search, rename, goto without following imports ...) shares the Script's memo tables with
+    every other query on related nodes - whatever one of them computes in its mode must not change what
+    another one answers afterwards.  Positions: attribute of a parameter whose type comes from the call
+    sites, the parameter itself, an instance attribute, a call result."""
+    b = world.Buffer()
+    tops = [m for m in mods if '.' not in m]
+    a = rng.choice(tops)
+    b.add('import %s' % a)
+    b.add('')
+    b.add('class Widget:')
+    b.add('    size = 1')
+    b.add('')
+    b.add('    def area(self, factor):')
+    b.add('        return self.size * factor')
+    b.add('')
+    b.add('')
+    pos = []    # (line text, needle)
+    b.add('def render(item, scale=2):')
+    b.add('    return item.size')
+    pos.append((len(b.lines), '    return item.size', 'item.si'))
+    pos.append((len(b.lines), '    return item.size', '    return ite'))
+    b.add('')
+    b.add('')
+    b.add('def show(thing, extra):')
+    b.add('    return thing.method(extra)')
+    pos.append((len(b.lines), '    return thing.method(extra)', 'thing.meth'))
+    pos.append((len(b.lines), '    return thing.method(extra)', 'method(ext'))
+    b.add('')
+    b.add('')
+    b.add('render(Widget())')
+    b.add('shown = show(%s.Klass(), 1.5)' % a)
+    pos.append((len(b.lines), b.lines[-1], 'show'))
+    b.add('w = Widget()')
+    b.add('w.area(3)')
+    pos.append((len(b.lines), 'w.area(3)', 'w.ar'))
+    b.add('shown')
+    pos.append((len(b.lines), 'shown', 'show'))
+    rng.shuffle(pos)
+    probes = []
+    for ln, text, needle in pos[:rng.randint(2, 3)]:
+        col = text.index(needle) + len(needle)
+        for m, kw in rng.sample(POS_METHODS, rng.randint(3, 5)):
+            p = {'m': m, 'l': ln, 'c': col}
+            if kw:
+                p['kw'] = kw
+            if m == 'rename_diff':
+                p['new'] = 'renamed_zz'
+            probes.append(p)
+    return b.text, probes
+
+
 def gen_syspath_buffer(rng, files):
     """a project module that modifies sys.path (statically visible), another module that is
     only importable through the added directory: what one module's sys.path edits do must not
@@ -241,6 +299,8 @@ def gen_case(seed, tier, i):
         extra_files = {}
         text, probes = gen_syspath_buffer(rng, extra_files)
         init += [{'op': 'fs', 'kind': 'write', 'path': p, 'content': c, 'mt': MT0} for p, c in sorted(extra_files.items())]
+    elif family < 0.57:
+        text, probes = gen_all_methods_buffer(rng, list(w.mods))
     elif family < 0.8:
         text, probes = gen_multi_buffer(rng, list(w.mods))
     else:
@@ -275,7 +335,7 @@ def gen_case(seed, tier, i):
     rng.shuffle(idxs)
     chosen = idxs[:min(8, len(idxs))]
     sched = []
-    if family < 0.45:
+    if family < 0.57:
         sched = list(chosen)        # every probe once (in shuffled order), then repetitions
     for _ in range(rng.randint(8, 16 if tier == 'quick' else 24)):
         sched.append(rng.choice(chosen))
